@@ -209,3 +209,36 @@ RULES: list[Rule] = [
     R(107, "try:\n    r = d[k]\nexcept KeyError:\n    pass", {"d": "dict_str_int", "k": "str"}, setup="from contextlib import suppress\n", cls="L", mode="stmt",
       rhs="with suppress(KeyError):\n    r = d[k]", msg="Replace `try: ... except KeyError: pass` with `with suppress(KeyError): ...`"),
 ]
+
+# ---- table-driven checks: the whole family the table could hold, not only the entries it holds today.
+# These instances need not be flagged (a family member the check does not know is simply not advised
+# on); when one is flagged, its advice is executed like any other.
+_BINOPS = ["+", "-", "*", "/", "//", "%", "**", "<<", ">>", "&", "|", "^", "<", "<=", "==", "!=", ">", ">=", "is", "is not"]
+_HASHES = ["md5", "sha1", "sha224", "sha256", "sha384", "sha512", "blake2b", "blake2s", "sha3_224", "sha3_256", "sha3_384", "sha3_512"]
+_RE_FLAGS = ["A", "I", "L", "M", "S", "T", "U", "X"]
+OPTIONAL_RULES: list[Rule] = [
+    # FURB123: redundant casts of every builtin type
+    R(123, "bytearray(ba)", {"ba": "bytearray"}), R(123, "frozenset(fs)", {"fs": "frozenset_int"}), R(123, "complex(cx)", {"cx": "complex"}),
+    R(123, "memoryview(mv)", {"mv": "memoryview"}), R(123, "object()", {}), R(123, "type(ty)", {"ty": "type"}),
+    # FURB112: empty constructors
+    R(112, "set()", {}), R(112, "frozenset()", {}), R(112, "bytearray()", {}), R(112, "complex()", {}), R(112, "object()", {}),
+    # FURB118: lambdas over every operator
+    *[R(118, f"list(map(lambda x, y: x {op} y, xs, ys))", {"xs": "list_int", "ys": "list_int"}) for op in _BINOPS],
+    R(118, "list(map(lambda x, y: y in x, ls, ys))", {"ls": "list_list_int", "ys": "list_int"}),
+    R(118, "list(map(lambda x, y: x in y, ys, ls))", {"ls": "list_list_int", "ys": "list_int"}),
+    *[R(118, f"list(map(lambda x: {op}x, xs))", {"xs": "list_int"}) for op in ("+", "~", "- ")],
+    R(118, "list(map(lambda x: x[1], ps))", {"ps": "list_pair"}), R(118, "list(map(lambda x: x[-1], ps))", {"ps": "list_pair"}),
+    R(118, "list(map(lambda x: (x[0], x[1]), ps))", {"ps": "list_pair"}), R(118, "list(map(lambda x: x[1:], ps))", {"ps": "list_pair"}),
+    # FURB181 / FURB182: every hashlib algorithm
+    *[R(181, f"hashlib.{h}(bs).digest().hex()", {"bs": "bytes"}, setup="import hashlib\n", cls="L") for h in _HASHES],
+    # FURB167: every short regex flag
+    *[R(167, f"re.compile('a', re.{f}).flags", {}, setup="import re\n", cls="L") for f in _RE_FLAGS],
+    # FURB116: every base prefix builtin on negative and big ints
+    R(116, "bin(n)[2:]", {"n": "nat"}), R(116, "oct(n)[2:]", {"n": "int"}), R(116, "hex(n)[2:]", {"n": "int"}), R(116, "hex(n)[3:]", {"n": "nat"}),
+    # FURB163: every base
+    *[R(163, f"math.log(v, {b})", {"v": "posfloat"}, setup="import math\n", cls="L") for b in ("2", "10", "math.e", "2.0", "10.0", "8", "math.pi")],
+    # FURB161
+    R(161, "bin(n).count('0')", {"n": "nat"}), R(161, "bin(n).count('1')", {"n": "nat"}),
+    # FURB157: Decimal literals
+    *[R(157, f"Decimal({a})", {}, setup="from decimal import Decimal\n", cls="L") for a in ("'1'", "'1.5'", "'-0'", "'+5'", "'1e3'", "' 5'", "'5_0'", "'０'", "float('nan')", "float('-inf')", "float('5')")],
+]
